@@ -220,6 +220,12 @@ def run_config(ctx, cfg):
         for j in range(D):
             rij = state.rho(space[i], space[j])
             ctx.eq("rho/single element == partial trace[%d,%d]" % (i, j), rij._arr[0] + I * rij._arr[1], RS[i][j], z3_confirm=False)
+    # the expand flag carried by other objects than the Python singletons
+    for name, yes, no in (("numpy.bool_", np.True_, np.False_), ("int", 1, 0)):
+        ctx.eq_arrays("rho/expand given as %s: true == the full matrix" % name, state.rho(space, space, expand=yes), rho, z3_confirm=False)
+        rpn = state.rho(space, flip, expand=no)
+        for i in range(D):
+            ctx.eq("rho/expand given as %s: false == the paired form[row=%d]" % (name, i), rpn._arr[0, i] + I * rpn._arr[1, i], RS[i][D - 1 - i], z3_confirm=False)
     rdiag = state.rho(space, expand=False)         # [probability, 0]
     prob = state.probability(space)
     ctx.holds("rho/expand-False-vp-None-shape", tuple(rdiag.shape) == (2, D))
